@@ -146,9 +146,10 @@ DIR_TARGETS = ("a/", "b/", "out/")
 _OUTCOME_CACHE: dict = {}
 
 
-def _validate_unchanged_outcome() -> tuple[str, bool]:
+def _validate_unchanged_outcome() -> tuple[str, bool | str]:
     """(state name, deferred) of `Executor.validate_dynamic_job` when the digest is unchanged, read from
-    the repository's executor.py (translator/gen_sched.py: executor_outcomes, fail closed)."""
+    the repository's executor.py (translator/gen_sched.py: executor_outcomes, fail closed).  `deferred` is
+    a literal or "unusable_dynamic_input" (= step.has_unusable_dynamic_input() in the outcome transaction)."""
     if "v" not in _OUTCOME_CACHE:
         from translator import gen_sched
         _OUTCOME_CACHE["v"] = gen_sched.executor_outcomes()["validate_unchanged"]
@@ -956,10 +957,16 @@ class Sim:
                 # repository does there (read from its source by the translator; PENDING and deferred
                 # since d760e3e, D36: without the flag the same validation job is handed out for ever)
                 state_name, deferred = _validate_unchanged_outcome()
+                if deferred == "unusable_dynamic_input":
+                    # the repair of D39: the flag is computed in this transaction by the repository's own
+                    # Step.has_unusable_dynamic_input (its query is pinned by the translator)
+                    deferred = bool(step.has_unusable_dynamic_input())
                 step.set_state(StepState[state_name], deferred)
+                args["deferred"] = bool(deferred)
             return {}
 
-        await self._event("validate", {"step": step.i, "changed": changed}, fn)
+        args = {"step": step.i, "changed": changed}
+        await self._event("validate", args, fn)
         self._finish_job(jr)
 
     def _program_for_run(self, label: str) -> dict:
